@@ -366,4 +366,23 @@ def slice_properties(ctx: Ctx):
         n += 1
         ctx.count("slice property pairs")
         ctx.ob("slice-mirror", where, tt[:250], u(ec)[:250], v, "paired row/column properties of the slice are mirror images. " + why)
+        # independent of the spelling: mirror twins depend on the SAME kinds of facts (FLOW read labels name the leaf
+        # class and member, not the orientation): a twin that additionally depends on the display order / hidden set,
+        # or on other data, is not the mirror image of the other
+        from .common import slice_obj
+
+        so = slice_obj(ctx)
+        rr, rc = set(ctx.flow.member_val(so, name).reads), set(ctx.flow.member_val(so, tw).reads)
+        # what the two display orders themselves depend on is set aside (sorting rows by a marginal is a listed
+        # one-sided feature, so the row order reads more than the column order); WHETHER a twin goes through a
+        # display order at all is compared
+        order_reads = set(ctx.flow.member_val(so, "_row_order_signed_indexes").reads) | set(ctx.flow.member_val(so, "_column_order_signed_indexes").reads)
+        uses_r, uses_c = "ORDER" in rr, "ORDER" in rc
+        only_r, only_c = sorted((rr - rc) - order_reads), sorted((rc - rr) - order_reads)
+        same = not (only_r or only_c) and uses_r == uses_c
+        detail = f"{len(rr)} / {len(rc)} read labels; through a display order: {uses_r} / {uses_c}"
+        if only_r or only_c:
+            detail = f"only {name}: {only_r}; only {tw}: {only_c}"
+        ctx.ob("slice-mirror.dependence", where, detail, "both twins read the same leaf facts, and both or neither go through the display order", same,
+               "one twin depends on facts (display order / hidden set, another measure) the other does not depend on")
     ctx.require_min("slice property pairs", 25)
